@@ -13,7 +13,7 @@ NAMESPACE = 'Props.C09'
 LEAN_CONE = ['PncModel.Words', 'PncModel.Camx.Uamiv', 'PncModel.Camx.Slab', 'PncProofs.WordsLemmas', 'PncProofs.UamivLemmas', 'PncProofs.C09']
 LEMMA_FILES = ['PncProofs/WordsLemmas.lean', 'PncProofs/UamivLemmas.lean']
 REQUIRED_THEOREMS = ['tiles', 'header_counts', 'refDecode_encode', 'slab_tiles', 'slab_record_content', 'cloud_rain_tiles',
-                     'cloud_rain_counts']
+                     'cloud_rain_counts', 'wind_tiles', 'wind_step_shape']
 RULE = ('uamiv files (all four NAME variants, 1-3 species with names up to 10 characters, nx, ny 1-4, nz 1-3, '
         '1-3 steps, begin/end flags with and without ETFLAG, any finite float32 payload incl. denormals and -0): '
         'kind write = library writer bytes vs the Lean encoder and an independent python record walker; kind '
@@ -28,7 +28,7 @@ RULE = ('uamiv files (all four NAME variants, 1-3 species with names up to 10 ch
         'encoder and the record walker, kind cread = reference-encoded bytes read by the Memmap reader vs the encoded content; '
         'non-trivial = at least two of nspec, nx*ny, nz, nt are > 1 and pairwise different strides')
 ASSUMPTIONS = ['numpy tofile/memmap and float32 <-> bits conversion are trusted (exercised incl. denormals, -0)',
-               'covered: the uamiv family, the five slab formats and cloud_rain (layout model, reader by oracle); lateral_boundary, landuse, wind and bpch (see C18) are not in this check']
+               'covered: the uamiv family, the five slab formats and cloud_rain (layout model, reader by oracle); wind (writer; readers in C13); lateral_boundary, landuse and bpch (see C18) are not in this check']
 MIN_NONTRIVIAL = {'quick': 30, 'thorough': 300}
 
 
@@ -52,6 +52,12 @@ def gen(rng, tier):
         out.append(c)
     for i in range(n // 4):
         out.append(_gen_cr(rng, 'cwrite' if i % 2 == 0 else 'cread'))
+    for i in range(n // 8):
+        c = S.gen_wind(rng)
+        c['stag'] = rng.choice([0, 1])          # the writer always emits the three-word header
+        c['kind'] = 'wwrite'
+        c['vdtype'] = rng.choice(['f', 'd'])
+        out.append(c)
     return out
 
 
@@ -113,6 +119,47 @@ def _cr_build(c):
             v = f.createVariable(k, c['vdtype'], ('TSTEP', 'LAY', 'ROW', 'COL'))
             v[:] = bits[:, :, c['names'].index(k)]
     return f
+
+
+def _impl_wind(case):
+    import os
+    import numpy as np
+    from PseudoNetCDF.pncgen import pncgen
+    p = os.path.join(camx.tmpdir(), 'c09w_%d_%d.bin' % (os.getpid(), np.random.randint(1 << 30)))
+    try:
+        with lib.pnc_warnings():
+            pncgen(S.wind_build(case, case['vdtype']), p, format='camxfiles.wind', verbose=0)
+        return dict(hex=open(p, 'rb').read().hex())
+    except lib.HarnessError:
+        raise
+    except Exception as e:
+        return dict(err=type(e).__name__, msg=str(e)[:120])
+    finally:
+        if os.path.exists(p):
+            os.remove(p)
+
+
+def _oracle_wind(case, res):
+    if 'err' in res:
+        return 'raised %s %s' % (res['err'], res.get('msg'))
+    try:
+        recs = camx.walk_records(bytes.fromhex(res['hex']))
+    except ValueError as e:
+        return 'records do not tile the file: %s' % e
+    n = case['nx'] * case['ny']
+    per = 2 * case['nz'] + 2
+    if len(recs) != per * len(case['flags']):
+        return '%d records, expected %d' % (len(recs), per * len(case['flags']))
+    for t, ((d, hhmm), slabs) in enumerate(zip(case['flags'], case['data'])):
+        h = recs[t * per]
+        if len(h) != 12 or struct.unpack('>fii', h) != (float(hhmm), d, case['stag']):
+            return 'time header of step %d: %r' % (t, h)
+        for k, sl in enumerate(slabs):
+            if list(struct.unpack('>%dI' % n, recs[t * per + 1 + k])) != sl:
+                return 'step %d record %d does not hold the %s values written for layer %d' % (t, k, 'UV'[k % 2], k // 2)
+        if len(recs[t * per + per - 1]) != 4:
+            return 'step %d is not closed by a one-word record' % t
+    return None
 
 
 def _impl_cr(case):
@@ -230,6 +277,8 @@ def _oracle_slab(case, res):
 
 
 def impl(case):
+    if case['kind'] == 'wwrite':
+        return _impl_wind(case)
     if case['kind'] in ('cwrite', 'cread'):
         return _impl_cr(case)
     if case['kind'] in ('swrite', 'sread'):
@@ -249,6 +298,8 @@ def impl(case):
 
 
 def to_line(case, res):
+    if case['kind'] == 'wwrite':
+        return S.wind_line(case)
     if case['kind'] in ('cwrite', 'cread'):
         return _cr_line(case)
     if case['kind'] == 'swrite':
@@ -267,7 +318,7 @@ def agree(case, out, res):
         return 'model %s, impl returned' % out[:60]
     if case['kind'] == 'cread':
         return None if out[3:] == res['hex'] else 'the python reference encoder and the Lean encoder differ'
-    if case['kind'] in ('swrite', 'cwrite'):
+    if case['kind'] in ('swrite', 'cwrite', 'wwrite'):
         return None if out[3:] == res['hex'] else 'writer bytes differ from the reference encoding (first difference at byte %d)' % _firstdiff(out[3:], res['hex'])
     if case['kind'] == 'sread':
         _, kv = lib.parse_kv('x ' + out[3:])
@@ -291,6 +342,8 @@ def _firstdiff(a, b):
 
 def oracle(case, res):
     """independent python record walker: markers tile the file, header counts match, content recovered"""
+    if case['kind'] == 'wwrite':
+        return _oracle_wind(case, res)
     if case['kind'] in ('cwrite', 'cread'):
         return _oracle_cr(case, res)
     if case['kind'] in ('swrite', 'sread'):
@@ -366,7 +419,7 @@ KEY_YEND = 'C08/uamiv-write/end-date-year-rollover'
 
 
 def classify(case, failure, model_out):
-    if case['kind'] in ('swrite', 'sread', 'cwrite', 'cread'):
+    if case['kind'] in ('swrite', 'sread', 'cwrite', 'cread', 'wwrite'):
         return None
     if failure.startswith('end flag of a step ending at midnight 31 Dec'):
         return KEY_YEND
@@ -381,7 +434,7 @@ def _crosses_2000(case):
 
 
 def nontrivial(case, res):
-    if case['kind'] in ('swrite', 'sread', 'cwrite', 'cread'):
+    if case['kind'] in ('swrite', 'sread', 'cwrite', 'cread', 'wwrite'):
         return len({case['nz'], case['nx'] * case['ny'], len(case['flags'])} - {1}) >= 2
     dims = [len(case['species']), case['nx'] * case['ny'], case['nz'], len(case['tflag'])]
     return sum(1 for d in dims if d > 1) >= 2
